@@ -128,6 +128,8 @@ def job_flux_monotone(job, cls, nx):
     mod = load_reservoir()
     job.encoded(mod, f"{cls}.simulate", "IdealReservoir.recovery_factor")
     job.solve_defaults = {"abstract": True}
+    job.assume_text("flux-mode monotonicity is claimed at nx = 3 over the first two steps only (nx = 4: z3 unknown at 600 s, measured; "
+                    "outside the claim)")
     tag = f"{cls}[nx={nx}]"
 
     def run():
@@ -246,6 +248,6 @@ def jobs(tier):
         out.append((f"balance-{nx}", lambda j, n=nx: job_balance(j, n)))
     if tier != "quick":
         out += [("ceiling-5-3", lambda j: job_zero_and_ceiling(j, 5, 3)), ("ceiling-3-3", lambda j: job_zero_and_ceiling(j, 3, 3)),
-                ("trapezoid-6", lambda j: job_trapezoid(j, 6)),
-                ("flux-Single-4", lambda j: job_flux_monotone(j, "SinglePhaseReservoir", 4)), ("flux-IdealR-4", lambda j: job_flux_monotone(j, "IdealReservoir", 4))]
+                ("trapezoid-6", lambda j: job_trapezoid(j, 6))]
+        # flux monotonicity at nx = 4 was tried here and z3 answers unknown at 600 s: outside the claim (stated bound nx = 3)
     return out
